@@ -337,32 +337,6 @@ end store
 
 /-! ### membership in the from-scratch list -/
 
-theorem mem_hookListCs (h : Heap) (k : HKey) (ob : Observer) (x : W) (cs : List Graph) (it : Item) :
-    it ∈ hookListCs h k ob x cs ↔ ∃ c ∈ cs, ∃ y ∈ okOr [] (objects h ob x), it ∈ hookList h k true c y := by
-  induction cs with
-  | nil => simp [hookListCs]
-  | cons c cs ih =>
-    rw [hookListCs_cons, List.mem_append, ih, List.mem_flatMap]
-    constructor
-    · rintro (⟨y, hy, hm⟩ | ⟨c', hc', y, hy, hm⟩)
-      · exact ⟨c, List.mem_cons_self .., y, hy, hm⟩
-      · exact ⟨c', List.mem_cons_of_mem _ hc', y, hy, hm⟩
-    · rintro ⟨c', hc', y, hy, hm⟩
-      cases hc' with
-      | head => exact Or.inl ⟨y, hy, hm⟩
-      | tail _ h' => exact Or.inr ⟨c', h', y, hy, hm⟩
-
-theorem mem_hookList_own (h : Heap) (k : HKey) (e : Bool) (ob : Observer) (cs : List Graph) (x : W) (it : Item)
-    (hm : it ∈ ownItems h k ob cs x) : it ∈ hookList h k e (.node ob cs) x := by
-  rw [hookList_node]; simp [hm]
-
-theorem mem_hookList_child (h : Heap) (k : HKey) (e : Bool) (ob : Observer) (cs : List Graph) (x : W) (it : Item)
-    (c : Graph) (hc : c ∈ cs) (y : W) (hy : y ∈ okOr [] (objects h ob x)) (hm : it ∈ hookList h k true c y) :
-    it ∈ hookList h k e (.node ob cs) x := by
-  rw [hookList_node]
-  have := (mem_hookListCs h k ob x cs it).2 ⟨c, hc, y, hy, hm⟩
-  simp [this]
-
 /-- at a visit every child graph leaves a maintainer on the mutated trait -/
 theorem visit_item (h : Heap) (k : HKey) (ob : Observer) (cs : List Graph) (x : W) (o : Id) (n : Name)
     (hr : readsAt ob x o n = true) (ht : hasTrait h x n = true) (c : Graph) (hc : c ∈ cs) :
